@@ -165,13 +165,23 @@ def gen_late_early(rng, name):
             ("ooo0", se, [(0, [0]), (rng.choice([0, 1]), [2]), (rng.choice([0, 1]), [3, 1])]),
             ("ooo1", se, [(0, [0, 2]), (0, [3, 1])]),
             ("ooo2", se, [(0, [0]), (0, [2]), (0, [1, 3])])]
+    runs += [(l + "-nosnap", 100000, st) for l, _, st in runs[1:]]
     return cs, runs
 
 
 def schedules_ooo_snap(rng, cs, tier):
     """out-of-order arrival while snapshots exist (a younger snapshot must not be chosen)"""
     runs = schedules_ooo(rng, cs, tier)
-    return [runs[0]] + [(l, rng.choice([1, 2, 3, 5, 8]), [(rng.choice([0, 1]) if fl == 0 else fl, fs) for fl, fs in st]) for l, _, st in runs[1:]]
+    nf = len(cs.files)
+    if nf >= 3:
+        # always: a later capture first (records snapshots), then an OLDER one (those snapshots are stale now), then the rest
+        runs.append(("ooo9", 100000, [(0, [1]), (rng.choice([0, 1]), [0])] + [(rng.choice([0, 1]), [f]) for f in range(2, nf)]))
+    out = [runs[0]]
+    for l, _, st in runs[1:]:
+        st2 = [(rng.choice([0, 1]) if fl == 0 else fl, fs) for fl, fs in st]
+        out.append((l, rng.choice([1, 2, 3, 5, 8]), st2))
+        out.append((l + "-nosnap", 100000, st2))          # the same arrival order without any snapshot
+    return out
 
 
 def schedules_snap(rng, cs, tier, every=None):
@@ -294,14 +304,53 @@ def chain_alternatives(cs):
     return [sorted((e["proto"], e["client"], e["server"], tuple(e["pk"]), tuple((d, b.hex()) for d, b in e["runs"])) for e in a + others) for a in alts]
 
 
-def classify(cs, label, run_res, ref_canon, steps_of=None):
-    """-> (verdict, errs)"""
+def bridging_shape(cs, steps, vis, left):
+    """The witness shape of stale-id-after-bridging-capture, checked on the schedule: every superseded stream s (covered by
+    the visible stream v) is a later run of the flow that was indexed BEFORE a capture arrived whose packets lie in time
+    between an earlier, also already indexed, run of v and s -- i.e. the bridging capture arrived after both neighbours."""
+    arr = {}
+    for k, (_, files) in enumerate(steps):
+        for f in files:
+            arr[f] = k
+    fp = cs.file_packets()
+
+    def ts(pk):
+        return fp[pk[0]][pk[1]]["ts"]
+    for i, j in left.items():
+        S, V = pkset(vis[i]), pkset(vis[j])
+        first_s = min(ts(p) for p in S)
+        arr_s = max(arr[p[0]] for p in S)
+        before = [p for p in V - S if ts(p) < first_s]
+        ok = False
+        for q in before:
+            if arr[q[0]] > arr_s and any(ts(r) < ts(q) and arr[r[0]] < arr[q[0]] for r in before):
+                ok = True
+                break
+        if not ok:
+            return False
+    return True
+
+
+def same_steps(a, b):
+    """the implementation's and the faithful model's observations of one run agree at every step"""
+    return bool(a and b) and len(a["steps"]) == len(b["steps"]) and \
+        all(c05.step_obs(x) == c05.step_obs(y) for x, y in zip(a["steps"], b["steps"]))
+
+
+def classify(cs, label, run_res, ref_canon, steps_of=None, model_run=None, twin=None, have_model=True):
+    """-> (verdict, errs).  A failing run is attributed to a known finding only if it has exactly that finding's shape."""
     errs, _ = oracle_run(run_res, ref_canon)
     if not errs:
         return "ok", []
     if label.startswith("ooo"):
         errs2, left = oracle_run(run_res, ref_canon, allow_leftover=True)
-        if not errs2 and left:
+        # stale-id-after-bridging-capture: (1) nothing else is wrong once the superseded streams are set aside, (2) the
+        # schedule has the witness shape (the bridging capture arrived after both runs it joins were indexed), (3) the
+        # faithful model -- which has this defect and no other -- predicts exactly this run, (4) snapshots play no part: the
+        # same schedule without snapshots ends in the same visible streams
+        if not errs2 and left and steps_of is not None and bridging_shape(cs, steps_of, run_res["steps"][-1]["streams"], left) \
+                and (not have_model or same_steps(run_res, model_run)) \
+                and (twin is None or (twin["steps"] and canon_visible(twin["steps"][-1]["streams"]) == canon_visible(run_res["steps"][-1]["streams"]))):
             return "known:" + KF_STALE, errs
     if getattr(cs, "dgap", None) and label.startswith("snap"):
         # capture gaps in BOTH directions of a connection: only the order of the flushed direction runs may differ
@@ -541,7 +590,8 @@ def main(tier, seed, replay=None):
                     bad.append((label, ["harness produced no/incomplete result: %s" % (r and r["panic"])]))
                     continue
                 snaps_used += sum(1 for st in r["steps"] if st["snaps"] != "-")
-                v, errs = classify(cs, label, r, ref_canon, steps)
+                v, errs = classify(cs, label, r, ref_canon, steps, model_run=mres[tag].get(cs.name, {}).get(label),
+                                   twin=rr.get(label + "-nosnap"), have_model=not nomodel)
                 if replay:
                     print("run %s %s: %s" % (label, steps, v))
                     for e in errs:
@@ -562,17 +612,19 @@ def main(tier, seed, replay=None):
                     bad.append((label, errs))
             if bad and nviol == 0:
                 label, errs = bad[0]
-                keep = [r for r in runs if r[0] in ("oneshot", label)]
+                keep = [r for r in runs if r[0] in ("oneshot", label, label + "-nosnap")]
 
                 def fails(cids, cs=cs, keep=keep, label=label, tag=tag):
                     sub, r2 = nonempty_runs(restrict(cs, cids), keep)
                     if not sub.packets or any(not st for _, _, st in r2):
                         return False
-                    out, _, _, _ = run_impl(render_case(sub, r2), "min", prop="c08", overlay_extra=(c05.snap_overlay() if tag == "snap" else None))
+                    out, _, cfm, _ = run_impl(render_case(sub, r2), "min", prop="c08", overlay_extra=(c05.snap_overlay() if tag == "snap" else None))
                     o = out.get(sub.name, {})
                     if "oneshot" not in o or label not in o or not o["oneshot"]["steps"]:
                         return False
-                    return classify(sub, label, o[label], canon_visible(o["oneshot"]["steps"][-1]["streams"]), [r for r in r2 if r[0] == label][0][2])[0] == "violation"
+                    mo = {} if nomodel else run_model(exe, cfm, "min", prop="c08")[0].get(sub.name, {})
+                    return classify(sub, label, o[label], canon_visible(o["oneshot"]["steps"][-1]["streams"]), [r for r in r2 if r[0] == label][0][2],
+                                    model_run=mo.get(label), twin=o.get(label + "-nosnap"), have_model=not nomodel)[0] == "violation"
                 cids = [c.cid for c in cs.convs]
                 if len(cs.packets) < 3000:
                     cids = ddmin(cids, fails, max_tests=40)
